@@ -38,6 +38,8 @@ type stubBackend struct {
 	preAuth  bool
 	fetchLit int  // size of the literal written by Fetch (0: none)
 	noMove   bool // sessions do not implement SessionMove
+	// failUnselect: Unselect takes part in the seeded failures too (only C05 sets it and knows how to judge it)
+	failUnselect bool
 }
 
 func newStubBackend() *stubBackend { return &stubBackend{closed: map[int]int{}} }
@@ -71,7 +73,7 @@ var (
 func (s *stubSession) rec(method string, args ...string) (int, error) {
 	c := stubCall{Step: simrt.Step(), Sess: s.id, Method: method, Args: args}
 	var err error
-	if s.b.failEach != nil && method != "Close" && method != "Poll" && method != "Idle" && method != "Unselect" && s.b.failEach(method) {
+	if s.b.failEach != nil && method != "Close" && method != "Poll" && method != "Idle" && (method != "Unselect" || s.b.failUnselect) && s.b.failEach(method) {
 		c.Err = true
 		err = errStubNo
 	}
